@@ -56,14 +56,18 @@ type InjSpec struct {
 
 // Config describes one scenario environment.
 type Config struct {
-	Seed           int64          `json:"seed"`
-	MaxSubs        int            `json:"maxSubs"`
-	MinRerunUS     int            `json:"minRerunUs"`
-	AlwaysSpawn    bool           `json:"alwaysSpawn"`
-	YieldIntensity int            `json:"yield"`
-	DefMode        int            `json:"defMode"`
-	Modes          map[string]int `json:"modes,omitempty"`
-	Injections     []InjSpec      `json:"injections,omitempty"`
+	Seed           int64 `json:"seed"`
+	MaxSubs        int   `json:"maxSubs"`
+	MinRerunUS     int   `json:"minRerunUs"`
+	AlwaysSpawn    bool  `json:"alwaysSpawn"`
+	YieldIntensity int   `json:"yield"`
+	DefMode        int   `json:"defMode"`
+	// WriteThenReadUS is reactive.WriteThenReadDelay for this scenario, in
+	// microseconds (Rerunner.run sleeps that long before every RE-run). It is
+	// a package variable: scenarios run one at a time in a process.
+	WriteThenReadUS int            `json:"writeThenReadUs"`
+	Modes           map[string]int `json:"modes,omitempty"`
+	Injections      []InjSpec      `json:"injections,omitempty"`
 }
 
 type server interface{ ServeJSONSocket() }
@@ -108,6 +112,7 @@ func StartSession(cfg Config, gen *Gen) *Session {
 		s.Y.Inject(vi)
 	}
 	s.Y.Install()
+	reactive.WriteThenReadDelay = time.Duration(cfg.WriteThenReadUS) * time.Microsecond
 	ctx, cancel := context.WithCancel(context.Background())
 	s.cancel = cancel
 	rerun := time.Duration(cfg.MinRerunUS) * time.Microsecond
@@ -313,6 +318,11 @@ func (s *Session) play(st *Step) error {
 		}
 	case "failwrite":
 		s.Sock.FailWriteAt(st.N)
+	case "idle":
+		// every live subscription has run at least once and its minimum
+		// re-run interval has passed: the next invalidation re-runs at once
+		s.syncInitials()
+		time.Sleep(2*time.Duration(s.Cfg.MinRerunUS)*time.Microsecond + 200*time.Microsecond)
 	case "boomcycle":
 		// transient resolver failure: only once every accepted subscription
 		// has received its initial envelope (so that the failure hits
